@@ -735,14 +735,16 @@ def onePass (ev : Evalr ρ) : Nat → St ρ → List Tag → List (Nat × List E
   | fuel + 1, st, t :: ts, outs, bb, remain =>
     -- early registration so reuse targets are available even if the element is not ready
     let r := genNode ev fuel (registerEarly ev st t.node) t.node
-    if r.1.inSpecs then onePass ev fuel r.1 ts outs bb remain
-    else
-      match r.2 with
-      | .ok (evs, b) =>
-        onePass ev fuel r.1 ts (if evs.isEmpty then outs else outs ++ [(t.idx, evs)]) (unionOpt bb b) remain
-      | .error er =>
-        if er.isLimit || er == .fuel then (r.1, .error er)
-        else onePass ev fuel r.1 ts outs bb ({ t with failGen := some r.1.gen } :: remain)
+    match r.2 with
+    | .error er =>
+      -- limits are safety stops, not missing context - also inside a specs block, where every other
+      -- error is expected and ignored
+      if er.isLimit || er == .fuel then (r.1, .error er)
+      else if r.1.inSpecs then onePass ev fuel r.1 ts outs bb remain
+      else onePass ev fuel r.1 ts outs bb ({ t with failGen := some r.1.gen } :: remain)
+    | .ok (evs, b) =>
+      if r.1.inSpecs then onePass ev fuel r.1 ts outs bb remain
+      else onePass ev fuel r.1 ts (if evs.isEmpty then outs else outs ++ [(t.idx, evs)]) (unionOpt bb b) remain
 
 /-- the retry loop of `process_tags` -/
 def retry (ev : Evalr ρ) : Nat → St ρ → List Tag → List (Nat × List Ev) → Option BoundingBox →
